@@ -69,7 +69,7 @@ func explore(cfg *vlib.Config, r *vlib.Report, sc *scenario) *scenarioResult {
 
 	frontier := [][]op{nil}
 	workers := runtime.GOMAXPROCS(0)
-	const chunk = 64
+	const chunk = 256
 	type cell struct {
 		outs []stepOut
 		bad  bool
